@@ -3,6 +3,7 @@
 package main
 
 import (
+	"github.com/rs/zerolog"
 	"bufio"
 	"flag"
 	"fmt"
@@ -13,6 +14,7 @@ import (
 	"verifharness/drv"
 	"verifharness/e1"
 	"verifharness/e4"
+	"verifharness/e6"
 	"verifharness/report"
 	"verifharness/run"
 )
@@ -27,6 +29,7 @@ func main() {
 	props := flag.String("props", "", "properties whose oracles are evaluated (comma separated; empty = all)")
 	variant := flag.String("variant", "fixed", "model variant (legacy only for regression witnesses)")
 	flag.Parse()
+	zerolog.SetGlobalLevel(zerolog.Disabled) // the bandwidth toxic logs through the global logger
 	res := report.New(*engine, *tier, *seed)
 	t0 := time.Now()
 	var eng run.Engine
@@ -59,6 +62,21 @@ func main() {
 		}
 		eng = e
 		sweep = func() { e.Sweep(*tier, *seed, res); res.DriverLines = d.Sent }
+	case "e6":
+		d, err := drv.Start(*driver, "e6")
+		if err != nil {
+			fmt.Fprintln(os.Stderr, err)
+			os.Exit(2)
+		}
+		defer d.Close()
+		e := e6.New(d)
+		e.Props = *props
+		if *out != "" {
+			e.CurFile = *out + ".cur"
+			defer os.Remove(e.CurFile)
+		}
+		eng = e
+		sweep = func() { e6.Sweep(e, *tier, *seed, res); res.DriverLines = d.Sent }
 	default:
 		fmt.Fprintln(os.Stderr, "unknown engine")
 		os.Exit(2)
